@@ -114,7 +114,7 @@ Qed.
 Lemma flags2_step bt s a : flags2 s -> flags2 (sys_step bt s a).
 Proof.
   destruct s as [st g]. intros H. unfold sys_step, step. cbn [fst snd].
-  destruct a as [t|sched|it| | |].
+  destruct a as [t|sched|it| | | |l0].
   - unfold user_send. destruct (connected st && neg_done st); [|exact H]. abs_send. cbn [fst snd]. gn. gsil.
     eapply flags2_view; [| |exact H]; reflexivity.
   - unfold write_phase. destruct (connected st) eqn:Ec; [|exact H].
@@ -136,6 +136,7 @@ Proof.
     cbn [negb fst snd]. gn. unfold flags2 in *. cbn in *. rewrite Ec in *. intuition congruence.
   - pose proof (flags2_disconnect _ _ H) as H2. destruct (disconnect st) as [st2 o2]. exact H2.
   - pose proof (flags2_connect _ _ H) as H2. destruct (do_connect st) as [st2 o2]. exact H2.
+  - eapply flags2_view; [| |exact H]; reflexivity.
 Qed.
 
 Lemma flags2_init : flags2 sys0.
